@@ -1097,3 +1097,37 @@ Proof.
   destruct (N.eqb_spec old tmp) as [->|Hne]; cbn; split; auto; try discriminate.
   intros E; inversion E; contradiction.
 Qed.
+
+(** * the commit cache in front of the no-change decision *)
+
+Theorem cache_fresh_spec t m : cache_fresh t m = true <-> (m <= t)%N.
+Proof.
+  unfold cache_fresh. destruct (N.ltb_spec t m); cbn; split; intros; try discriminate; try lia; auto.
+Qed.
+
+(** when the file is newer than the cached commit (or there is none), the step decides by
+    comparing the head's table id with the id of the table the file really holds *)
+Theorem branch_commit_step_sound st mtime now table :
+  (forall t tb, cs_cache st = Some (t, tb) -> (t < mtime)%N) ->
+  snd (branch_commit_step st mtime now table) = commit_if_changed (cs_head st) table /\
+  cs_cache (fst (branch_commit_step st mtime now table)) = Some (now, table) /\
+  cs_head (fst (branch_commit_step st mtime now table)) =
+    (if commit_if_changed (cs_head st) table then Some table else cs_head st).
+Proof.
+  intros Hn. unfold branch_commit_step. destruct (cs_cache st) as [[t tb]|] eqn:E; cbn.
+  - specialize (Hn t tb eq_refl). unfold cache_fresh. apply N.ltb_lt in Hn. rewrite Hn. cbn. auto.
+  - auto.
+Qed.
+
+(** a changed file can be taken for unchanged only through a cache entry that is not older
+    than the file: then the file's modification time is at most the cached commit's time *)
+Theorem branch_commit_stale_only_if_old st mtime now table :
+  snd (branch_commit_step st mtime now table) <> commit_if_changed (cs_head st) table ->
+  exists t tb, cs_cache st = Some (t, tb) /\ (mtime <= t)%N.
+Proof.
+  intros Hd. unfold branch_commit_step in Hd. destruct (cs_cache st) as [[t tb]|] eqn:E; cbn in Hd.
+  - exists t, tb. split; [reflexivity|]. destruct (cache_fresh t mtime) eqn:F.
+    + now apply cache_fresh_spec.
+    + cbn in Hd. contradiction.
+  - contradiction.
+Qed.
